@@ -6,12 +6,26 @@
    state, for every state and every amount (C05_push_take).  The full statement -- for a fixed
    sequence of (operation, chunk) calls the emitted bytes and the sequence of back-end
    requests are the same for every output-capacity schedule -- is kept below as
-   C05_out_slicing_stmt and is NOT yet proved in Coq; on every run it is decided on the real
-   encoder by differential runs (output capacities 1, 2, mixed with 0, ample, take-output,
-   four allocators / ABIs, two build profiles, wrappers) and the model is checked to
-   reproduce the implementation's back-end request sequence under three output slicings. *)
-From Coq Require Import NArith List Bool.
-From V Require Import lib.Words model.Stream proofs.Stream_proofs.
+   C05_out_slicing_stmt; AS STATED it is false (C05_out_slicing_stmt_refuted below: its driver
+   stops a PROCESS call as soon as the input is consumed, with bytes still pending).  The
+   corrected statement drives every logical call to quiescence ([drive_q]: repeat the call with
+   the unconsumed input until it returns with all input consumed and nothing pending) and is
+   PROVED (second half of this file):
+   C05_out_slicing_main / _main_seq (quality >= 2 or catable or magic, no metadata calls: same
+   bytes, IDENTICAL final state, hence identical sequence of back-end answers consumed);
+   C05_out_slicing_meta / _meta_seq (same path, metadata calls included: same bytes, logically
+   equal final states, answer lists that agree up to the cursor an empty answer records);
+   C05_out_slicing_fast / _fast_seq (quality 0/1, no metadata calls: same bytes, logically equal
+   final states, answer lists that agree up to the recorded in-place flag);
+   C05_out_slicing_partial = the corrected full statement C05_out_slicing_q_stmt restricted to
+   "main path, or no metadata call" (missing: metadata calls on a quality-0/1 encoder).
+   On every run the property is additionally decided on
+   the real encoder by differential runs (output capacities 1, 2, mixed with 0, ample,
+   take-output, four allocators / ABIs, two build profiles, wrappers) and the model is checked
+   to reproduce the implementation's back-end request sequence under three output slicings. *)
+From Coq Require Import NArith ZArith List Bool Lia.
+From V Require Import lib.Words model.Stream proofs.Stream_proofs proofs.NoPanic_proofs
+                      proofs.Slicing_proofs proofs.Slicing_fast proofs.Slicing_meta.
 Import ListNotations.
 Open Scope N_scope.
 
@@ -64,3 +78,246 @@ Example C05_push_take_example :
   let s := upd_out s0 (NoDyn 0) [7; 8; 9] 600 (tiny s0) 3 0 in
   take_output s 2 = Done ([7; 8], upd_out s (NoDyn 2) [7; 8; 9] 600 (tiny s0) 1 2).
 Proof. vm_compute. reflexivity. Qed.
+
+(* ====================================================================================== *)
+(* Output-slicing independence under quiescent driving                                       *)
+(* ====================================================================================== *)
+
+(* The statement above is too strong as written: [drive] declares a PROCESS call complete when
+   its input is consumed, so a schedule that offered no room still has the block's bytes
+   pending.  (The deeper obstacle, found while attempting the proof: once PROCESS calls are not
+   driven to quiescence, WHEN the back end runs depends on the schedule - a block that one
+   schedule encodes with force_flush = false is encoded by another inside the following
+   FLUSH.) *)
+Definition c05_ans_block : answer :=
+  {| a_fast := false; a_is_last := false; a_force_flush := false; a_result := true; a_inplace := false;
+     a_block := 0; a_out := [1; 2; 3]; a_lb := 0; a_lbb := 0; a_ipos := 262144; a_lfp := 0; a_lpp := 262144;
+     a_hint := 262144; a_no := NoDyn 0 |}.
+
+Theorem C05_out_slicing_stmt_refuted : ~ C05_out_slicing_stmt.
+Proof.
+  intros H.
+  pose (s := upd_misc (ensure_initialized init_st) false [c05_ans_block]).
+  assert (E1 : exists s1, drive 1 s OpProcess 262144 [10] [] = Some ([1; 2; 3], s1)) by (vm_compute; eexists; reflexivity).
+  assert (E2 : exists s2, drive 1 s OpProcess 262144 [0] [] = Some ([], s2)) by (vm_compute; eexists; reflexivity).
+  destruct E1 as [s1 E1]. destruct E2 as [s2 E2].
+  destruct (H 1%nat s OpProcess 262144 [10] [0] _ _ s1 s2 eq_refl E1 E2) as [K _]. discriminate K.
+Qed.
+Print Assumptions C05_out_slicing_stmt_refuted.
+
+(* [drive_q s op payload chunk caps acc] (proofs/Slicing_proofs.v): one logical call driven to
+   quiescence - compress_stream is repeated with the unconsumed input, one capacity of [caps]
+   per call, until a call returns true with all input consumed and nothing pending; None if a
+   call fails, returns false, or the capacities run out first.  [drive_seq] chains logical calls
+   (operation, input size, payload), each with its own capacity list.
+
+   Main path (stream_loop).  Two capacity schedules that both drive the same logical call to
+   quiescence from the same state deliver the same bytes and end in the SAME state - in
+   particular the same remaining answer list: the back end was asked the same questions. *)
+Theorem C05_out_slicing_main : forall s op payload chunk caps caps' acc out out' s1 s2,
+  initialized s = true -> inv s -> all_ok2 (oracle s) -> fastcond s = false -> op <> OpMeta ->
+  drive_q s op payload chunk caps acc = Some (out, s1) ->
+  drive_q s op payload chunk caps' acc = Some (out', s2) ->
+  out = out' /\ s1 = s2.
+Proof. exact out_slicing_call. Qed.
+Print Assumptions C05_out_slicing_main.
+
+Theorem C05_out_slicing_main_seq : forall calls s capss capss' acc out out' s1 s2,
+  initialized s = true -> inv s -> all_ok2 (oracle s) -> fastcond s = false ->
+  Forall (fun c => fst (fst c) <> OpMeta) calls ->
+  drive_seq s calls capss acc = Some (out, s1) ->
+  drive_seq s calls capss' acc = Some (out', s2) ->
+  out = out' /\ s1 = s2.
+Proof. exact out_slicing_seq. Qed.
+Print Assumptions C05_out_slicing_main_seq.
+
+(* One-pass/two-pass path (fast_loop, quality 0/1, not catable, no magic).  The physical layout
+   (in place vs staged, where padding goes) and the recorded a_inplace flag depend on the
+   capacity offered, so the two runs start from logically equal states [leq s t] (all logical
+   fields equal, same pending bytes, answer lists equal after erasing a_inplace; see
+   C05_leq_fields) and end in logically equal states with the same bytes delivered. *)
+Theorem C05_out_slicing_fast : forall s t op payload chunk caps caps' acc out out' s1 t1,
+  initialized s = true -> inv s -> all_ok2 (oracle s) -> fastcond s = true ->
+  initialized t = true -> inv t -> all_ok2 (oracle t) ->
+  leq s t -> op <> OpMeta ->
+  drive_q s op payload chunk caps acc = Some (out, s1) ->
+  drive_q t op payload chunk caps' acc = Some (out', t1) ->
+  out = out' /\ leq s1 t1 /\ avail_out_ s1 = 0 /\ avail_out_ t1 = 0.
+Proof. exact out_slicing_call_fast. Qed.
+Print Assumptions C05_out_slicing_fast.
+
+Theorem C05_out_slicing_fast_seq : forall calls s t capss capss' acc out out' s1 t1,
+  initialized s = true -> inv s -> all_ok2 (oracle s) -> fastcond s = true ->
+  initialized t = true -> inv t -> all_ok2 (oracle t) ->
+  leq s t ->
+  Forall (fun c => fst (fst c) <> OpMeta) calls ->
+  drive_seq s calls capss acc = Some (out, s1) ->
+  drive_seq t calls capss' acc = Some (out', t1) ->
+  out = out' /\ leq s1 t1 /\ fastcond s1 = true.
+Proof. exact out_slicing_seq_fast. Qed.
+Print Assumptions C05_out_slicing_fast_seq.
+
+Theorem C05_leq_fields : forall s t, leq s t ->
+  quality s = quality t /\ lgwin s = lgwin t /\ lgblock s = lgblock t /\ size_hint s = size_hint t
+  /\ sstate_ s = sstate_ t /\ rem_meta s = rem_meta t
+  /\ input_pos s = input_pos t /\ last_flush_pos s = last_flush_pos t /\ last_processed_pos s = last_processed_pos t
+  /\ last_bytes s = last_bytes t /\ last_bytes_bits s = last_bytes_bits t
+  /\ last_emitted s = last_emitted t /\ first_pending s = first_pending t
+  /\ wadd64 (total_out_ s) (avail_out_ s) = wadd64 (total_out_ t) (avail_out_ t)
+  /\ map erase (oracle s) = map erase (oracle t)
+  /\ pend s = pend t.
+Proof. exact leq_fields. Qed.
+Print Assumptions C05_leq_fields.
+
+(* Main path with metadata calls.  meta_loop moves the payload straight into the caller's
+   buffer when there is room and through the 16-byte tiny buffer when there is none, so after a
+   metadata block the cursor and the tiny buffer depend on the schedule, and a later encode that
+   emits nothing records that cursor (a_no).  The runs therefore start from logically equal
+   states [leqB s t] (every field except cursor / storage contents / tiny buffer, same pending
+   bytes, answer lists equal after erasing a_no; see C05_leqB_fields) and end in logically equal
+   states.  [readyM] = initialized, inv, all_ok2, not the quality-0/1 path, meta_ok. *)
+Theorem C05_out_slicing_meta : forall s t op payload chunk caps caps' acc out out' s1 t1,
+  readyM s -> readyM t -> leqB s t -> (op = OpMeta -> chunk <= lenN payload) ->
+  drive_q s op payload chunk caps acc = Some (out, s1) ->
+  drive_q t op payload chunk caps' acc = Some (out', t1) ->
+  out = out' /\ leqB s1 t1 /\ readyM s1 /\ readyM t1.
+Proof. exact out_slicing_call_meta. Qed.
+Print Assumptions C05_out_slicing_meta.
+
+Theorem C05_out_slicing_meta_seq : forall calls s t capss capss' acc out out' s1 t1,
+  readyM s -> readyM t -> leqB s t ->
+  Forall (fun c => fst (fst c) = OpMeta -> snd (fst c) <= lenN (snd c)) calls ->
+  drive_seq s calls capss acc = Some (out, s1) ->
+  drive_seq t calls capss' acc = Some (out', t1) ->
+  out = out' /\ leqB s1 t1 /\ readyM s1 /\ readyM t1.
+Proof. exact out_slicing_seq_meta. Qed.
+Print Assumptions C05_out_slicing_meta_seq.
+
+Theorem C05_leqB_fields : forall s t, leqB s t ->
+  quality s = quality t /\ lgwin s = lgwin t /\ lgblock s = lgblock t /\ size_hint s = size_hint t
+  /\ sstate_ s = sstate_ t /\ rem_meta s = rem_meta t
+  /\ input_pos s = input_pos t /\ last_flush_pos s = last_flush_pos t /\ last_processed_pos s = last_processed_pos t
+  /\ last_bytes s = last_bytes t /\ last_bytes_bits s = last_bytes_bits t
+  /\ last_emitted s = last_emitted t /\ first_pending s = first_pending t
+  /\ storage_size s = storage_size t
+  /\ wadd64 (total_out_ s) (avail_out_ s) = wadd64 (total_out_ t) (avail_out_ t)
+  /\ map erase_no (oracle s) = map erase_no (oracle t)
+  /\ pend s = pend t.
+Proof. exact leqB_fields. Qed.
+Print Assumptions C05_leqB_fields.
+
+(* The corrected full statement: any sequence of logical calls (metadata included), either
+   path, logically equal start states ([leqU] = leq on the quality-0/1 path, leqB otherwise). *)
+Definition C05_out_slicing_q_stmt : Prop :=
+  forall calls s t capss capss' acc out out' s1 t1,
+  slicing_pre s -> slicing_pre t -> leqU s t ->
+  Forall (fun c => fst (fst c) = OpMeta -> snd (fst c) <= lenN (snd c)) calls ->
+  drive_seq s calls capss acc = Some (out, s1) ->
+  drive_seq t calls capss' acc = Some (out', t1) ->
+  out = out' /\ leqU s1 t1.
+
+(* Proved: everything except metadata calls on a quality-0/1 encoder.  (Missing there: the
+   metadata simulation over the quality-0/1 abstraction, which drops storage_size; it needs the
+   extra invariant input_pos = last_flush_pos so that meta_loop never calls encode_data.) *)
+Theorem C05_out_slicing_partial : forall calls s t capss capss' acc out out' s1 t1,
+  slicing_pre s -> slicing_pre t -> leqU s t ->
+  Forall (fun c => fst (fst c) = OpMeta -> snd (fst c) <= lenN (snd c)) calls ->
+  (fastcond s = false \/ Forall (fun c => fst (fst c) <> OpMeta) calls) ->
+  drive_seq s calls capss acc = Some (out, s1) ->
+  drive_seq t calls capss' acc = Some (out', t1) ->
+  out = out' /\ leqU s1 t1.
+Proof. exact out_slicing_partial. Qed.
+Print Assumptions C05_out_slicing_partial.
+
+(* ---- non-vacuity: concrete states, different capacity schedules, by computation ---- *)
+Definition c05_ans1 : answer :=
+  {| a_fast := false; a_is_last := false; a_force_flush := true; a_result := true; a_inplace := false;
+     a_block := 0; a_out := [11; 12; 13; 14; 15]; a_lb := 5; a_lbb := 3; a_ipos := 10; a_lfp := 10; a_lpp := 10;
+     a_hint := 10; a_no := NoDyn 0 |}.
+Definition c05_ans2 : answer :=
+  {| a_fast := false; a_is_last := true; a_force_flush := false; a_result := true; a_inplace := false;
+     a_block := 0; a_out := [3]; a_lb := 0; a_lbb := 0; a_ipos := 10; a_lfp := 10; a_lpp := 10;
+     a_hint := 10; a_no := NoDyn 0 |}.
+Definition c05_ex_main : st := upd_misc (ensure_initialized init_st) false [c05_ans1; c05_ans2].
+Definition c05_ex_calls : list (opk * N * list N) := [(OpProcess, 5, []); (OpFlush, 5, []); (OpFinish, 0, [])].
+
+Lemma c05_inv_oracle s le o : inv s -> inv (upd_misc s le o).
+Proof. intros [Hc [Hp [Ht Hl]]]. unfold inv, cursor_ok, pad_ok in *. fs. repeat split; assumption. Qed.
+
+(* process 5 bytes, 5 more and flush (5 bytes + 2 bytes of padding), finish (1 byte): ample
+   buffers vs. buffers of 0, 1, 2 bytes *)
+Example C05_out_slicing_main_example :
+  initialized c05_ex_main = true /\ inv c05_ex_main /\ all_ok2 (oracle c05_ex_main) /\ fastcond c05_ex_main = false
+  /\ exists sf,
+       drive_seq c05_ex_main c05_ex_calls [[7]; [100]; [100]] [] = Some ([11; 12; 13; 14; 15; 53; 0; 3], sf)
+    /\ drive_seq c05_ex_main c05_ex_calls [[0]; [0; 2; 0; 1; 10]; [0; 1]] [] = Some ([11; 12; 13; 14; 15; 53; 0; 3], sf)
+    /\ oracle sf = [] /\ sstate_ sf = SFinished.
+Proof.
+  split; [reflexivity|]. split; [apply c05_inv_oracle; exact inv_init|].
+  split; [repeat constructor; vm_compute; reflexivity|]. split; [reflexivity|].
+  eexists. split; [vm_compute; reflexivity|]. split; [vm_compute; reflexivity|]. split; reflexivity.
+Qed.
+
+Definition c05_fa1 (ip : bool) : answer :=
+  {| a_fast := true; a_is_last := false; a_force_flush := false; a_result := true; a_inplace := ip;
+     a_block := 100; a_out := [21; 22; 23; 24; 25; 26]; a_lb := 5; a_lbb := 3; a_ipos := 0; a_lfp := 0; a_lpp := 0;
+     a_hint := 0; a_no := NoNone |}.
+Definition c05_fa2 (ip : bool) : answer :=
+  {| a_fast := true; a_is_last := true; a_force_flush := false; a_result := true; a_inplace := ip;
+     a_block := 0; a_out := [3]; a_lb := 0; a_lbb := 0; a_ipos := 0; a_lfp := 0; a_lpp := 0;
+     a_hint := 0; a_no := NoNone |}.
+Definition c05_ex_q0 : st := ensure_initialized (snd (set_parameter init_st 1 0)).
+Definition c05_ex_fs : st := upd_misc c05_ex_q0 false [c05_fa1 true; c05_fa2 true].
+Definition c05_ex_ft : st := upd_misc c05_ex_q0 false [c05_fa1 false; c05_fa2 false].
+Definition c05_ex_fcalls : list (opk * N * list N) := [(OpProcess, 100, []); (OpFlush, 0, []); (OpFinish, 0, [])].
+
+(* quality 0: ample buffers (blocks compressed in place, padding via the tiny buffer) vs. small
+   buffers (blocks staged, padding behind them); the final cursors differ, the logical states
+   and the bytes do not *)
+Example C05_out_slicing_fast_example :
+  initialized c05_ex_fs = true /\ inv c05_ex_fs /\ all_ok2 (oracle c05_ex_fs) /\ fastcond c05_ex_fs = true
+  /\ initialized c05_ex_ft = true /\ inv c05_ex_ft /\ all_ok2 (oracle c05_ex_ft) /\ leq c05_ex_fs c05_ex_ft
+  /\ exists sf tf,
+       drive_seq c05_ex_fs c05_ex_fcalls [[1000]; [100]; [600]] [] = Some ([21; 22; 23; 24; 25; 26; 53; 0; 3], sf)
+    /\ drive_seq c05_ex_ft c05_ex_fcalls [[2; 0; 3; 700]; [0; 1; 5]; [0; 1]] [] = Some ([21; 22; 23; 24; 25; 26; 53; 0; 3], tf)
+    /\ next_out sf = NoNone /\ next_out tf = NoDyn 1.
+Proof.
+  assert (Hq : inv c05_ex_q0).
+  { pose proof (fresh_inv (snd (set_parameter init_st 1 0)) (fresh_set_parameter _ 1 0 fresh_init) eq_refl) as [H _]. exact H. }
+  split; [reflexivity|]. split; [apply c05_inv_oracle; exact Hq|].
+  split; [repeat constructor; vm_compute; reflexivity|]. split; [reflexivity|].
+  split; [reflexivity|]. split; [apply c05_inv_oracle; exact Hq|].
+  split; [repeat constructor; vm_compute; reflexivity|]. split; [split; vm_compute; reflexivity|].
+  eexists. eexists. split; [vm_compute; reflexivity|]. split; [vm_compute; reflexivity|]. split; reflexivity.
+Qed.
+
+Definition c05_m1 : answer :=
+  {| a_fast := false; a_is_last := false; a_force_flush := true; a_result := true; a_inplace := false;
+     a_block := 0; a_out := [11; 12; 13]; a_lb := 5; a_lbb := 3; a_ipos := 5; a_lfp := 5; a_lpp := 5;
+     a_hint := 5; a_no := NoDyn 0 |}.
+Definition c05_ex_meta : st := upd_misc (ensure_initialized init_st) false [c05_m1].
+Definition c05_ex_payload : list N :=
+  [100; 101; 102; 103; 104; 105; 106; 107; 108; 109; 110; 111; 112; 113; 114; 115; 116; 117; 118; 119].
+Definition c05_ex_mcalls : list (opk * N * list N) := [(OpProcess, 5, []); (OpMeta, 20, c05_ex_payload)].
+
+(* 5 bytes of input, then a 20-byte metadata block (flushes the input: 3 bytes, then a 3-byte
+   header, then the payload): ample buffers vs. buffers of 0..3 bytes, where the payload goes
+   through the tiny buffer; the final cursors and tiny buffers differ, the logical states and
+   the bytes do not *)
+Example C05_out_slicing_meta_example :
+  readyM c05_ex_meta
+  /\ exists sf tf,
+       drive_seq c05_ex_meta c05_ex_mcalls [[100]; [100]] []
+       = Some ([11; 12; 13; 181; 38; 0] ++ c05_ex_payload, sf)
+    /\ drive_seq c05_ex_meta c05_ex_mcalls [[0]; [0; 1; 0; 3; 0; 0; 2; 30]] []
+       = Some ([11; 12; 13; 181; 38; 0] ++ c05_ex_payload, tf)
+    /\ next_out sf = NoTiny 3 /\ next_out tf = NoTiny 16 /\ tiny sf <> tiny tf /\ leqB sf tf.
+Proof.
+  split.
+  - split; [reflexivity|]. split; [apply c05_inv_oracle; exact inv_init|].
+    split; [repeat constructor; vm_compute; reflexivity|]. split; [reflexivity|].
+    intros [H|H]; discriminate H.
+  - eexists. eexists. split; [vm_compute; reflexivity|]. split; [vm_compute; reflexivity|].
+    split; [reflexivity|]. split; [reflexivity|]. split; [intros H; discriminate H|].
+    split; vm_compute; reflexivity.
+Qed.
